@@ -16,9 +16,29 @@ import (
 )
 
 // Clock is the virtual time source shared by the nodes of a run.
-type Clock struct{ Now int64 } // nanoseconds since the Unix epoch
+// Clock: the injected clock reads Origin + Now nanoseconds since the Unix epoch. Everything the harness logs, stores in payloads
+// and computes with is relative to Origin (so that trace values stay small); the library only ever sees absolute instants. An
+// Origin far beyond the machine's date makes a dependency on the wall clock visible that an epoch in the past hides (C14).
+type Clock struct {
+	Now    int64
+	Origin int64
+}
 
-func (c *Clock) T() time.Time { return time.Unix(0, c.Now) }
+func (c *Clock) T() time.Time { return time.Unix(0, c.Origin+c.Now) }
+
+// FarOrigin: about two centuries after 1970, a multiple of every timestamp increment the drivers configure (1, 7, 64, 1000).
+const FarOrigin = int64(200*365*24*3600*1000000000) / 56000 * 56000
+
+// curOrigin is the Origin of the node whose library call is in progress (payload bodies present absolute timestamps to it).
+var curOrigin int64
+
+// rel turns an absolute instant handed out by the library into the harness' relative one (0 stays 0: "not set").
+func rel(t uint64, origin int64) uint64 {
+	if origin > 0 && t >= uint64(origin) {
+		return t - uint64(origin)
+	}
+	return t
+}
 
 // VTimer implements dbft.Timer on virtual time.
 type VTimer struct {
@@ -280,15 +300,16 @@ func (n *Node) build() {
 			return &Payload{T: t, Ht: c.BlockIndex, V: c.ViewNumber, From: from, Body: msg}
 		}),
 		dbft.WithNewPrepareRequest[H](func(ts uint64, nonce uint64, txs []H) dbft.PrepareRequest[H] {
+			ts = rel(ts, n.Clk.Origin)
 			n.cb(CbRec{K: "NewPrepareRequest", Block: &BlockRec{Ts: ts, Nonce: strconv.FormatUint(nonce, 10), Txs: hs(txs)}})
 			return &ReqBody{Ts: ts, NonceV: nonce, Txs: append([]H(nil), txs...)}
 		}),
 		dbft.WithNewPrepareResponse[H](func(h H) dbft.PrepareResponse[H] { return &RespBody{PH: h} }),
 		dbft.WithNewChangeView[H](func(nv byte, r dbft.ChangeViewReason, ts uint64) dbft.ChangeView {
-			return &CVBody{NV: nv, Rsn: r, Ts: ts}
+			return &CVBody{NV: nv, Rsn: r, Ts: rel(ts, n.Clk.Origin)}
 		}),
 		dbft.WithNewCommit[H](func(sig []byte) dbft.Commit { return &CommitBody{Sig: append([]byte(nil), sig...)} }),
-		dbft.WithNewRecoveryRequest[H](func(ts uint64) dbft.RecoveryRequest { return &RReqBody{Ts: ts} }),
+		dbft.WithNewRecoveryRequest[H](func(ts uint64) dbft.RecoveryRequest { return &RReqBody{Ts: rel(ts, n.Clk.Origin)} }),
 		dbft.WithNewRecoveryMessage[H](func() dbft.RecoveryMessage[H] { return &RMsgBody{} }),
 		dbft.WithVerifyPrepareRequest[H](n.verifyPayload("PrepareRequest")),
 		dbft.WithVerifyPrepareResponse[H](n.verifyPayload("PrepareResponse")),
@@ -363,7 +384,7 @@ func bodyOf(txs []dbft.Transaction[H]) *[]string {
 }
 
 func ctxBlockRec(ctx *dbft.Context[H]) BlockRec {
-	return BlockRec{H: ctx.BlockIndex, Prev: short(ctx.PrevHash), Ts: ctx.Timestamp,
+	return BlockRec{H: ctx.BlockIndex, Prev: short(ctx.PrevHash), Ts: rel(ctx.Timestamp, curOrigin),
 		Nonce: strconv.FormatUint(ctx.Nonce, 10), Txs: hs(ctx.TransactionHashes)}
 }
 
@@ -447,11 +468,11 @@ type PState struct {
 	VerifOk   bool       `json:"verifiedOk"` // application accepted the (pre-)block of the stored proposal in this view
 }
 
-func tnano(t time.Time) int64 {
+func tnano(t time.Time, origin int64) int64 {
 	if t.IsZero() {
 		return -1
 	}
-	return t.UnixNano()
+	return t.UnixNano() - origin
 }
 
 func keyID(k dbft.PublicKey) int {
@@ -505,7 +526,7 @@ func (n *Node) proj(handed *Block, handedPre *PreBlock) *PState {
 		s.Vals = append(s.Vals, keyID(v))
 	}
 	s.Prev = short(c.PrevHash)
-	s.Ts, s.Nonce, s.Txs = c.Timestamp, strconv.FormatUint(c.Nonce, 10), hs(c.TransactionHashes)
+	s.Ts, s.Nonce, s.Txs = rel(c.Timestamp, n.Clk.Origin), strconv.FormatUint(c.Nonce, 10), hs(c.TransactionHashes)
 	for h := range c.Transactions {
 		s.Have = append(s.Have, string(h))
 	}
@@ -609,8 +630,8 @@ func (n *Node) proj(handed *Block, handedPre *PreBlock) *PState {
 			PreCommit: mapRecs(in.PreCommit), Commit: mapRecs(in.Commit)})
 	}
 	s.Sub = vs.TxSubscriptionOn
-	s.LbTs, s.LbTime, s.LbIdx, s.LbView = vs.LastBlockTimestamp, tnano(vs.LastBlockTime), vs.LastBlockIndex, int(vs.LastBlockView)
-	s.SentAt, s.RttAvg, s.RttOld = tnano(vs.PrepareSentTime), int64(vs.RttAvg), int64(vs.RttOld)
+	s.LbTs, s.LbTime, s.LbIdx, s.LbView = rel(vs.LastBlockTimestamp, n.Clk.Origin), tnano(vs.LastBlockTime, n.Clk.Origin), vs.LastBlockIndex, int(vs.LastBlockView)
+	s.SentAt, s.RttAvg, s.RttOld = tnano(vs.PrepareSentTime, n.Clk.Origin), int64(vs.RttAvg), int64(vs.RttOld)
 	s.Tpb, s.MaxTpb = int64(vs.TimePerBlock), int64(vs.MaxTimePerBlock)
 	return s
 }
@@ -712,6 +733,7 @@ func (n *Node) call(name string, arg any, f func()) *Line {
 	}
 	n.cbs = []CbRec{}
 	n.nAPI++
+	curOrigin = n.Clk.Origin
 	func() {
 		defer func() {
 			if r := recover(); r != nil {
@@ -744,14 +766,14 @@ func (n *Node) newEpochObs() {
 
 func (n *Node) Start() *Line {
 	n.newEpochObs()
-	l := n.call("Start", TsArg{n.TipTs}, func() { n.started = true; n.D.Start(n.TipTs) })
+	l := n.call("Start", TsArg{n.TipTs}, func() { n.started = true; n.D.Start(n.TipTs + uint64(n.Clk.Origin)) })
 	l.Cfg = &n.Cfg
 	l.Fresh = true
 	return l
 }
 func (n *Node) Reset() *Line {
 	n.newEpochObs()
-	return n.call("Reset", TsArg{n.TipTs}, func() { n.D.Reset(n.TipTs) })
+	return n.call("Reset", TsArg{n.TipTs}, func() { n.D.Reset(n.TipTs + uint64(n.Clk.Origin)) })
 }
 func (n *Node) Receive(p *Payload) *Line {
 	q := p.clone()
